@@ -215,11 +215,30 @@ def build_harness():
 # T-eq: run harness, run modelrun over every shard, compare
 # ----------------------------------------------------------------------------------------
 
-def run_harness(engine, outdir, args, timeout=3000):
+TARGET_ASAN = os.path.join(BUILD, "target-asan")
+HARNESS_ASAN = os.path.join(TARGET_ASAN, "x86_64-unknown-linux-gnu", "release", "feox-verif-harness")
+
+
+def build_harness_asan():
+    """the same harness and /repo, instrumented with AddressSanitizer (nightly toolchain, offline)"""
+    hdir = os.path.join(VERIF, "harness")
+    env = dict(ENV)
+    env["CARGO_TARGET_DIR"] = TARGET_ASAN
+    env["RUSTFLAGS"] = "-Zsanitizer=address --cfg feoxdb_verif"
+    rc, out = sh("cargo +nightly build --release --offline --target x86_64-unknown-linux-gnu 2>&1", cwd=hdir, timeout=1800, env=env)
+    return rc == 0, out
+
+
+def run_harness(engine, outdir, args, timeout=3000, asan=False):
     shutil.rmtree(outdir, ignore_errors=True)
     os.makedirs(outdir, exist_ok=True)
-    cmd = [HARNESS, engine, "out=" + outdir] + ["%s=%s" % kv for kv in args.items()]
-    p = subprocess.run(cmd, cwd=VERIF, env=ENV, stdout=subprocess.PIPE, stderr=subprocess.PIPE, timeout=timeout)
+    cmd = [HARNESS_ASAN if asan else HARNESS, engine, "out=" + outdir] + ["%s=%s" % kv for kv in args.items()]
+    env = ENV
+    if asan:
+        env = dict(ENV)
+        # leaks are deliberate in places (InFlightBuffers, forgotten stores in the harness)
+        env["ASAN_OPTIONS"] = "detect_leaks=0:abort_on_error=0:exitcode=77:halt_on_error=1"
+    p = subprocess.run(cmd, cwd=VERIF, env=env, stdout=subprocess.PIPE, stderr=subprocess.PIPE, timeout=timeout)
     return p.returncode, p.stdout.decode("utf-8", "replace"), p.stderr.decode("utf-8", "replace")[-20000:]
 
 
